@@ -441,7 +441,7 @@ PROPS["C12"] = dict(
 
 PROPS["C03"] = dict(
     pkg="crash", test="TestC03", engine="crash",
-    quick=dict(checks=4000, shards=4), thorough=dict(checks=480000, shards=16), timeout=dict(quick=900, thorough=6000),
+    quick=dict(checks=12000, shards=4), thorough=dict(checks=480000, shards=16), timeout=dict(quick=900, thorough=6000),
     nt_floor=dict(quick=2100, thorough=200000),
     must_classes=["target=sdl", "target=exe", "target=value", "target=writer", "kind=exe-adversarial", "kind=exe-mutated", "kind=exe-soup", "kind=exe-valid-badvars",
                   "kind=sdl-mutated", "kind=sdl-soup", "kind=sdl-valid", "kind=value-soup", "kind=bytes", "kind=deep-nesting", "kind=exe-corpus",
